@@ -4,6 +4,7 @@ from __future__ import annotations
 import itertools
 from pathlib import Path
 from typing import IO, Iterable, Type, TYPE_CHECKING
+from urllib.parse import unquote
 
 from pydoctor import model
 from pydoctor.extensions import zopeinterface
@@ -126,7 +127,10 @@ class TemplateWriter(IWriter):
             if self.dry_run:
                 self.total_pages += 1
             else:
-                with self.build_directory.joinpath(ob.url).open('wb') as fobj:
+                # ob.url is a percent-encoded URL: the file it refers to is named by
+                # the decoded path (a web server, or a browser opening a file, decodes
+                # 'caf%C3%A9.html' to 'café.html' before looking for it).
+                with self.build_directory.joinpath(unquote(ob.url)).open('wb') as fobj:
                     self._writeDocsForOne(ob, fobj)
         for o in ob.contents.values():
             self._writeDocsFor(o)
